@@ -114,6 +114,31 @@ fn handle(line: &str, big: &mut [u8]) -> String {
                 None => "bad-case".into(),
             }
         }
+        ["rt", _cfg, ty, val] => {
+            // encode, then decode what was written
+            let Some(v) = V::parse(val) else { return "bad-case".into() };
+            match glue::enc_type(ty, &v, big) {
+                Some(Ok(b)) => match glue::dec_type(ty, &b) {
+                    Some(Ok(v2)) => format!("ok {} {}", if b.is_empty() { "-".to_string() } else { hex(&b) }, v2.show()),
+                    Some(Err(e)) => format!("{} after {}", dec_err(e), hex(&b)),
+                    None => "bad-case".into(),
+                },
+                Some(Err(_)) => "err".into(),
+                None => "bad-case".into(),
+            }
+        }
+        ["rtb", _cfg, ty, hx] => {
+            // decode, then re-encode the value through the public types (dump -> build -> serialize)
+            let Some(bytes) = unhex(hx) else { return "bad-case".into() };
+            match glue::dec_type(ty, &bytes) {
+                Some(Ok(v)) => match glue::enc_type(ty, &v, big) {
+                    Some(Ok(b)) => format!("ok {}", if b.is_empty() { "-".to_string() } else { hex(&b) }),
+                    _ => "err reencode".into(),
+                },
+                Some(Err(e)) => dec_err(e).into(),
+                None => "bad-case".into(),
+            }
+        }
         ["req", _cfg, hx] => {
             let Some(bytes) = unhex(hx) else { return "bad-case".into() };
             let res = ctap_types::ctap2::Request::deserialize(&bytes);
